@@ -285,6 +285,41 @@ prop("C15",
      thorough=dict(cases=1500, valgrind_cases=12),
      )
 
-NOT_BUILT = "monitor not built yet in this session (work in progress); see DESIGN.md for the planned design"
-for _pid in ["C16", "C17"]:
-    prop(_pid, claimed=False, reason=NOT_BUILT)
+WEB_NOTE = ("Trusted base: the in-process MongoDB wire-protocol stub and HTTP client of /verif/harness/websim, the "
+            "oracle crate, network-namespace isolation (unshare -n; falls back to a lock on port 8080).")
+
+prop("C16",
+     design_ref="DESIGN.md §5 C16",
+     technique="HTTP history monitor against the real server process + stub DB: stored models vs oracle, graph walker, task book-keeping",
+     level_text=("Runtime monitoring at the HTTP boundary: the server binary built from the tree (hooks on) runs against an "
+                 "in-process MongoDB stub; for generated codes (both parsing strategies) the harness adds the problem, "
+                 "polls, issues all six solves in random order with repeated/early solves, and checks EVERY GET body: "
+                 "stored models per strategy = definitional answers (grounded exactly, complete with grounded first), every "
+                 "graph = exactly the nodes reachable from the labelled roots and walking lo/hi edges evaluates the "
+                 "statement's condition for every assignment extending the shown model, malformed code ends as Error and "
+                 "is unusable, a task with a stored result is never listed as running; a second phase injects task delays "
+                 "(hook H7) and DB latency and must observe running tasks."),
+     level_note=WEB_NOTE + " 'Eventually stored' is decided as bounded progress (ended-but-unstored for 1500 polls).",
+     rule=("cases = submitted codes (n<=5 quick, <=6 thorough; 1 in 6 malformed) with the full request history; "
+           "non-trivial = code with >=2 complete models or a malformed code; distinct by code hash"),
+     quick=dict(cases=14, shards=8),
+     thorough=dict(cases=150, shards=8, timeout=3000),
+     )
+
+prop("C17",
+     design_ref="DESIGN.md §5 C17",
+     technique="concurrent multi-user HTTP histories: per-user sequential model, marker-based isolation check, DB audit at barriers",
+     level_text=("Runtime monitoring of concurrent histories: 2-3 user threads with own cookie jars drive random sequences "
+                 "of register/login/logout/update/delete-account/add/solve/get/list/delete with re-used problem names, "
+                 "unique markers per (user, problem) and unique password tokens. Every response is compared with the "
+                 "status a single-user model predicts and scanned for foreign markers; at barriers the stub database must "
+                 "equal the union of the user models (owner, name, code of every problem; accounts; argon2 hashes, no "
+                 "repeated hash, no password token in any DB command); unauthenticated requests must get 401 and no data; "
+                 "logins with stale/wrong passwords and on temporary accounts must fail. Random think times, task delays "
+                 "(H7) and DB latency vary the interleavings; a dedicated probe replays the account-name re-use history."),
+     level_note=WEB_NOTE + " Interleavings are those produced by threads, think times and injected delays, not an enumeration.",
+     rule=("cases = concurrent histories (2-3 users x 24-40 steps); non-trivial = >=2 users were active and >=10 requests "
+           "were made; distinct by hash of the (user, operation, status) sequence; evidence counts distinct DB command interleavings"),
+     quick=dict(cases=10, shards=8),
+     thorough=dict(cases=120, shards=8, timeout=3000),
+     )
